@@ -80,6 +80,9 @@ func execOnce(bin string, in []byte, gomaxprocs string) (*Out, bool) {
 	}
 	cmd.ExtraFiles = []*os.File{pw}
 	cmd.Env = []string{"GOMAXPROCS=" + gomaxprocs, "GOTRACEBACK=single", "PATH=/nonexistent"}
+	if d := os.Getenv("GOCOVERDIR"); d != "" { // tools/reach.sh: a -cover build of simbin reports which code the runs reached
+		cmd.Env = append(cmd.Env, "GOCOVERDIR="+d)
+	}
 	start := time.Now()
 	o := &Out{}
 	if err := cmd.Start(); err != nil {
